@@ -317,11 +317,13 @@ def _opt_line(opts):
     return "    __options__ = Options(" + ", ".join(f"{k}={v!r}" for k, v in opts.items()) + ")\n"
 
 
-LEAF_SRC = ("COUNT = [0]\n"
+LEAF_SRC = ("COUNT = [0]\nLIMIT = [10 ** 12]\n"
+            "class CostExceeded(BaseException):\n    pass\n"
             "class Leaf:\n    def __init__(self, v):\n        self.v = v\n"
             "@utype.register_transformer(Leaf)\n"
             "def to_leaf(transformer, data, t):\n"
             "    COUNT[0] += 1\n"
+            "    if COUNT[0] > LIMIT[0]:\n        raise CostExceeded(COUNT[0])\n"
             "    if isinstance(data, Leaf):\n        return data\n"
             "    if transformer.no_explicit_cast and not isinstance(data, int):\n        raise TypeError('strict: int only')\n"
             "    if data == 'bad':\n        raise ValueError('bad leaf')\n"
@@ -359,11 +361,19 @@ def _judge_cost(acc, cname, oname, family, label, cls, count, data, n, prev_w, s
     count[0] = 0
     acc.states += 1
     acc.transitions += 1
-    st, r = call_guarded(lambda: parse(cls, data), wall_s=3.0, step_budget=1_500_000)
+    bound = 4 * n * n + 8
+    # deterministic cut-off, no timing: the counting leaf itself stops the parse (with a BaseException the library does
+    # not catch) once the bound is crossed; the wall / step guard is only a backstop far beyond any polynomial cost
+    sys.modules[cls.__module__].LIMIT[0] = bound + 1
+    try:
+        st, r = call_guarded(lambda: parse(cls, data), wall_s=120.0, step_budget=2_000_000_000)
+    except BaseException as e:      # noqa
+        if type(e).__name__ != "CostExceeded":
+            raise
+        st, r = "cost-exceeded", e
     w = count[0]
     acc.evaluations += 1
     acc.outcomes["ok" if st == "ok" else "rejected" if st == "exc" else st] += 1
-    bound = 4 * n * n + 8
     acc.nontrivial_add((cname, oname, family, label))
     key = f"max_leaf_conversions:{cname}:{oname}:{family}"
     acc.extra[key] = max(acc.extra.get(key, 0), w)
@@ -371,14 +381,16 @@ def _judge_cost(acc, cname, oname, family, label, cls, count, data, n, prev_w, s
         return False, w
     # the growth factor per nesting level identifies the mechanism (x2 / x3: the union's stages, x6: three stages
     # times two data-class members)
-    growth = f"x{round(w / prev_w)}" if prev_w else "x?"
-    fp = f"C18|cost|{cname}|opts={oname}|{family}|growth-{growth}-per-level"
+    # measured on the last two complete (not cut off) sizes
+    ratio = prev_w[-1] / prev_w[-2] if prev_w and len(prev_w) >= 2 and prev_w[-2] else 0
+    growth = "exponential" if ratio >= 1.8 else "other"       # the cost multiplies with every nesting level, or not
+    fp = f"C18|cost|{cname}|opts={oname}|{family}|growth-{growth}"
     script = "\n".join(["import sys", "sys.path.insert(0, '/verif')", "from utmc.props import c18"] + script_lines + [
         "mod.COUNT[0] = 0", "try:", "    c18.parse(cls, data)", "except Exception as e:", "    print(type(e).__name__)",
         "print('nodes', n, 'leaf conversions', mod.COUNT[0], 'bound', 4 * n * n + 8)",
         "sys.exit(1 if mod.COUNT[0] > 4 * n * n + 8 else 0)"]) + "\n"
     acc.violation(fp, f"declaration '{cname}' options {oname} family {family} {label}: {n} input nodes cost {w} "
-                      f"leaf conversions (bound {bound})" + (" and did not finish within the step budget" if st == "nonterm" else ""),
+                      f"leaf conversions (bound {bound}; the parse is cut off there)" + (" and did not finish within the backstop" if st == "nonterm" else ""),
                   script)
     return True, w
 
@@ -398,7 +410,7 @@ def _cost(acc, cname, oname, tier):
     maxnodes = 1500 if thorough else 400
     for family, leaf, bottom in (("valid", 1, 1), ("lenient-only", "2", "2"), ("invalid-bottom-leaf", 1, "bad")):
         for width in widths:
-            prev_w = None
+            prev_w = []
             for depth in range(1, maxdepth + 1):
                 if width ** depth > maxnodes or (width > 1 and depth > (10 if thorough else 8)):
                     continue
@@ -408,12 +420,12 @@ def _cost(acc, cname, oname, tier):
                     f"data, n = c18.cost_input({how!r}, {depth}, {width}, {leaf!r}, {bottom!r})"])
                 if boom:
                     break       # deeper inputs of an exploding family only cost time
-                prev_w = w
+                prev_w.append(w)
                 if depth == maxdepth:
                     acc.sample(dict(declaration=cname, options=oname, family=family, width=width, depth=depth, nodes=n, leaf_conversions=w))
     unload(mod)
     # a self-containing input cut off by max_depth = d: the work must stay polynomial in d
-    prev_w = None
+    prev_w = []
     for d in range(2, 21 if thorough else 13):
         src = LEAF_SRC + tmpl.format(opt=_opt_line(dict(opts, max_depth=d)))
         mod = load(src)
@@ -424,7 +436,7 @@ def _cost(acc, cname, oname, tier):
         unload(mod)
         if boom:
             break
-        prev_w = w
+        prev_w.append(w)
         if d == (20 if thorough else 12):
             acc.sample(dict(declaration=cname, options=oname, family="cyclic-cut-by-limit", max_depth=d, leaf_conversions=w))
 
